@@ -693,7 +693,7 @@ def nontrivial(case, obs):
 
 
 def build_cases(rng, tier):
-    n_random = 70 if tier == "quick" else 700
+    n_random = 70 if tier == "quick" else 2400
     cases = [dict(c) for c in CORPUS]
     for k, m in enumerate(NUC_REV + NUC_NONREV if tier != "quick" else ["JC69", "HKY85", "GTR", "GN"]):
         cases.append(allcols_case(rng, 3 + (k % 2), m))
@@ -732,7 +732,7 @@ def run(tier: str, seed: int) -> int:
         idx = sorted(exacts)
         # 20/61-state cases are expensive as Coq literals: the model is evaluated on a bounded number of them
         # (the others are still compared implementation-vs-oracle)
-        big_budget = 6 if tier == "quick" else 40
+        big_budget = 6 if tier == "quick" else 100
         keep = []
         for i in idx:
             if len(impl[i]["alphabet"]) > 4:
